@@ -31,9 +31,10 @@ pub(crate) fn crypto_scalarmult_curve25519(
     n: &[u8; CRYPTO_SCALARMULT_CURVE25519_SCALARBYTES],
     p: &[u8; CRYPTO_SCALARMULT_CURVE25519_BYTES],
 ) {
-    let sk = Scalar::from_bytes_mod_order(clamp(n));
-    let pk = MontgomeryPoint(*p);
-    let shared_secret = sk * pk;
+    // X25519 multiplies by the clamped scalar as an integer. Reducing it modulo
+    // the group order first (as a `Scalar` would) gives a different result for
+    // points outside the prime-order subgroup (twist, small-order components).
+    let shared_secret = MontgomeryPoint(*p).mul_clamped(*n);
 
     q.copy_from_slice(shared_secret.as_bytes());
 }
